@@ -184,3 +184,5 @@ INFO = dict(
     outside=["non-linear nullable recursion (oracle raises out-of-bounds)", "PYTHONHASHSEED is a sampled dimension", "IEEE rounding of Float weights"],
     assumptions=["weights range over the non-negative reals", "oracle pivots > 0 (convergence of cyclic unary/null sums)"],
 )
+
+INFO["technique"] = 'symbolic execution of the real parsers with z3 reals as rule weights; z3 proves result == derivation-sum oracle per path and string; all agenda tie-breaks via a contract-only heap; bounded'
